@@ -202,6 +202,16 @@ def batch(n, seed):
     return n, built, refused, pts_checked, sorted(nt), viol
 
 
+def example_sets(seed, k=3):
+    rs = np.random.RandomState(seed)
+    out = []
+    while len(out) < k:
+        D, lb, ub, plb, pub, fam = gen_boundset(rs)
+        if len(set(fam)) >= 2 and D <= 4:
+            out.append({"D": D, "families": fam, "lb": lb, "plb": plb, "pub": pub, "ub": ub})
+    return out
+
+
 def bads_scaling_cases(n, seed):
     """nonlinear_scaling=False => no coordinate is log-transformed"""
     from pybads import BADS
@@ -254,6 +264,6 @@ def summarize(records, tier, seed):
         inconc = "transformer monitor never reached"
     sam = sorted(nt)[:5]
     return dict(evaluations=int(cnt.get("C11.bound_sets", 0)), distinct_nontrivial=len(nt), rule=RULE,
-                samples=[{"D": t[0], "coordinate_families": list(t[1]), "range_decade_bucket": t[2]} for t in sam],
+                samples=example_sets(seed * 1000) + [{"D": t[0], "coordinate_families": list(t[1]), "range_decade_bucket": t[2]} for t in sam][:3],
                 extra={"events_checked": cnt, "refused_fraction": round(cnt.get("C11.refused_by_selftest", 0) / max(1, cnt.get("C11.bound_sets", 1)), 4)},
                 inconclusive=inconc, min_nontrivial=50)
